@@ -20,6 +20,9 @@ def run(tier, replay=None):
     rep.floor('likely-subtags rows', nrows, 8219)
     rep.count('table rows compared with CLDR', nrows)
     rep.count('maximize decision paths / distinct lookups', '%d / %d' % (res['paths'], res['lookups']))
+    # the feature that selects this code must be reachable from the crate a user enables it on (manifest wiring)
+    from .. import features
+    features.check(rep)
     rep.explanation = ('Composition: (a) every table equals the CLDR data row for row and is strictly sorted in the order of the binary search (data rules, exhaustive); '
                        '(b) the lookup cascade read from the MIR of likelysubtags::maximize equals the decision list of the property for each of the 8 presence patterns: '
                        'which table, keyed by the integer forms of which parameters, in which order, first hit returned, row value decoded with the tables\' byte order, '
